@@ -1,7 +1,7 @@
 (* C16 — hierarchical equations: complete index set, consistent links, valid states.
-   Statements only; proofs in Proofs/C16.v and Proofs/C16rhs.v, model in Model/C16.v. *)
+   Statements only; proofs in Proofs/C16.v, Proofs/C16rhs.v and Proofs/C16diag.v, model in Model/C16.v. *)
 From Coq Require Import ZArith List Bool Arith.
-From QV Require Import Base.Alg Base.Sums Base.Mat Base.Taylor Model.C16 Proofs.C16 Proofs.C16rhs Proofs.C16count.
+From QV Require Import Base.Alg Base.Sums Base.Mat Base.Taylor Model.C16 Proofs.C16 Proofs.C16rhs Proofs.C16count Proofs.C16diag.
 Import ListNotations.
 
 (* level j of the generated hierarchy holds every multi-index over N baths of total order j, each once:
@@ -88,6 +88,45 @@ Theorem c16_zero_coupling_is_closed_system : forall (R : StarRing) dim nb (H : l
           (mscale (ropp R dt) (mscale ii (comm dim HH (ado 0%nat)))).
 Proof. intros R dim nb H HH Vs ii gam kBT two Hroot. exact (zero_coupling_rhs dim nb H HH Vs ii gam kBT two Hroot). Qed.
 Print Assumptions c16_zero_coupling_is_closed_system.
+
+(* ---- uncoupled sites: the exactly solvable case of the last clause.  Hamiltonian and system parts of the bath couplings
+   diagonal (projectors on the sites).  What is proved: the populations of the reduced density matrix never move, for every
+   depth, step, expansion order and number of steps; and every matrix element (a,b) of the whole propagation - of every ADO,
+   at every stored time - is the propagation of its own scalar hierarchy with coefficients h_a - h_b, v_ka - v_kb, v_ka + v_kb:
+   the matrix hierarchy decouples element by element.  What is NOT proved (validated by the check on real propagations): that
+   the scalar hierarchy converges with depth to exp(-i w t - g(t)). *)
+Theorem c16_uncoupled_populations_constant : forall (R : StarRing) dim nb (H : list mi) HH Vs ii lam gam kBT two,
+  diagonal dim HH -> (forall k, diagonal dim (Vs k)) -> nth 0 H [] = repeat 0%nat nb ->
+  forall prefs nsteps (ado0 : nat -> @mat R) a, (a < dim)%nat ->
+  Forall (fun ado => ado 0%nat a a = ado0 0%nat a a) (heom_traj dim nb H HH Vs ii lam gam kBT two prefs nsteps ado0).
+Proof.
+  intros R dim nb H HH Vs ii lam gam kBT two h1 h2 h3 prefs nsteps ado0 a Ha.
+  exact (heom_populations_constant dim nb H HH Vs ii lam gam kBT two h1 h2 h3 prefs nsteps ado0 a Ha).
+Qed.
+Print Assumptions c16_uncoupled_populations_constant.
+
+Theorem c16_uncoupled_sites_decouple_elementwise : forall (R : StarRing) dim nb (H : list mi) HH Vs ii lam gam kBT two,
+  diagonal dim HH -> (forall k, diagonal dim (Vs k)) ->
+  forall prefs nsteps (ado0 : nat -> @mat R) a b, (a < dim)%nat -> (b < dim)%nat ->
+  Forall2 (fun ado x => forall n, ado n a b = x n)
+          (heom_traj dim nb H HH Vs ii lam gam kBT two prefs nsteps ado0)
+          (scalar_traj nb H ii lam gam kBT two (rsub R (HH a a) (HH b b)) (fun k => rsub R (Vs k a a) (Vs k b b))
+                       (fun k => radd R (Vs k a a) (Vs k b b)) prefs nsteps (fun n => ado0 n a b)).
+Proof.
+  intros R dim nb H HH Vs ii lam gam kBT two h1 h2 prefs nsteps ado0 a b Ha Hb.
+  exact (heom_elementwise dim nb H HH Vs ii lam gam kBT two h1 h2 prefs nsteps ado0 a b Ha Hb).
+Qed.
+Print Assumptions c16_uncoupled_sites_decouple_elementwise.
+
+(* non-vacuity: projectors on two sites are diagonal (over the integers) *)
+Example c16_example_uncoupled :
+  and (@diagonal ZR 3 (fun i j => if Nat.eqb i j then Z.of_nat (i * 7) else 0%Z))
+      (forall k, @diagonal ZR 3 (fun i j => if Nat.eqb i (S k) && Nat.eqb j (S k) then 1%Z else 0%Z)).
+Proof.
+  split; [|intros k]; intros i j Hi Hj Hne; cbn; destruct (Nat.eqb_spec i j); try contradiction; try reflexivity.
+  destruct (Nat.eqb i (S k)) eqn:E1; destruct (Nat.eqb j (S k)) eqn:E2; try reflexivity.
+  apply Nat.eqb_eq in E1, E2. congruence.
+Qed.
 
 (* non-vacuity *)
 Example c16_example :
